@@ -981,6 +981,39 @@ func (p *Prog) renameCollision(r *Report, rule string, api, wf *ssa.Function, mu
 			}
 		})
 	}
+	// a sibling path assembled as parent + "." + newName must also be right when the parent path is empty (top level)
+	eachInstr(api, func(b *ssa.BasicBlock, in ssa.Instruction) {
+		c, ok := in.(*ssa.Call)
+		if !ok {
+			return
+		}
+		g := staticCallee(&c.Call)
+		if g == nil || (p.Name(g) != "mxj.Map.Exists" && p.Name(g) != "mxj.Map.ValuesForPath") {
+			return
+		}
+		for _, a := range c.Call.Args {
+			if !isStringType(a.Type()) || !backwardSlice(api, a)[newName] {
+				continue
+			}
+			// find a concatenation left + "." ...
+			for v := range backwardSlice(api, a) {
+				bo, ok := v.(*ssa.BinOp)
+				if !ok || bo.Op != token.ADD {
+					continue
+				}
+				if s, isS := constString(bo.Y); !isS || s != "." {
+					continue
+				}
+				z := p.zoneFlowOf(api, nil)
+				lt := z.lenTerm(bo.X)
+				if z.leq(bo, zterm{0, 1, true}, lt) {
+					r.OK(rule, p.Name(api), "sibling path well formed at top level", p.Pos(bo.Pos()), "the parent path is known non-empty where it is joined with '.'")
+				} else {
+					r.Bad(rule, p.Name(api), "sibling path well formed at top level", p.Pos(bo.Pos()), "the parent path may be empty where it is joined with '.': for a top-level key the collision test asks for \".newName\" and never finds the existing sibling")
+				}
+			}
+		}
+	})
 	if found {
 		r.OK(rule, p.Name(api), "collision test is a presence test", p.Pos(api.Pos()), "the new name is looked up with Exists or a comma-ok lookup before the write")
 	} else {
@@ -1262,4 +1295,129 @@ func ruleAliasReuse(p *Prog, r *Report, fns []*ssa.Function) {
 		})
 	}
 	r.OK(rule, "scope", "buffer-reuse sites enumerated", "", fmt.Sprintf("%d sites of the form y[:0] in %d functions", n, len(fns)))
+}
+
+// ruleAccumFresh: a loop-carried accumulator (x = append(x, ...) around a loop) starts from an empty slice (nil, make, or
+// y[:0]), not from a value that was computed for another purpose — otherwise stale entries survive into the result.
+func ruleAccumFresh(p *Prog, r *Report, fns []*ssa.Function) {
+	const rule = "ACCUM.fresh"
+	n := 0
+	for _, fn := range fns {
+		ord := newOrdinals()
+		for _, in := range instrsByPos(fn) {
+			ph, ok := in.(*ssa.Phi)
+			if !ok {
+				continue
+			}
+			if _, isSl := ph.Type().Underlying().(*types.Slice); !isSl {
+				continue
+			}
+			// loop header phi whose back edge value is append(phi-chain, ...)
+			hdr := ph.Block()
+			isHdr := false
+			for _, pr := range hdr.Preds {
+				if hdr.Dominates(pr) {
+					isHdr = true
+				}
+			}
+			if !isHdr {
+				continue
+			}
+			accum := false
+			for i, e := range ph.Edges {
+				if !hdr.Dominates(hdr.Preds[i]) {
+					continue
+				}
+				if isAppendOf(e, ph, map[ssa.Value]bool{}) {
+					accum = true
+				}
+			}
+			if !accum {
+				continue
+			}
+			n++
+			construct := ord.key(p.Name(fn), "accumulator "+ph.Comment)
+			bad := ""
+			for i, e := range ph.Edges {
+				if hdr.Dominates(hdr.Preds[i]) {
+					continue
+				}
+				if why := notFreshSlice(e, map[ssa.Value]bool{}); why != "" {
+					bad = why
+				}
+			}
+			if bad == "" {
+				r.OK(rule, p.Name(fn), construct, p.Pos(ph.Pos()), "the accumulation starts from an empty slice")
+			} else {
+				r.Bad(rule, p.Name(fn), construct, p.Pos(ph.Pos()), "values are appended in a loop to a slice that may already hold "+bad+": entries computed for an earlier step leak into the result")
+			}
+		}
+	}
+	r.OK(rule, "scope", "loop-carried accumulators enumerated", "", fmt.Sprintf("%d accumulators in %d functions", n, len(fns)))
+}
+
+func isAppendOf(v ssa.Value, ph *ssa.Phi, seen map[ssa.Value]bool) bool {
+	if seen[v] {
+		return false
+	}
+	seen[v] = true
+	switch x := v.(type) {
+	case *ssa.Call:
+		if bi, ok := x.Call.Value.(*ssa.Builtin); ok && bi.Name() == "append" {
+			return x.Call.Args[0] == ssa.Value(ph) || phiChainReaches(x.Call.Args[0], ph) || isAppendOf(x.Call.Args[0], ph, seen)
+		}
+	case *ssa.Phi:
+		for _, e := range x.Edges {
+			if isAppendOf(e, ph, seen) {
+				return true
+			}
+		}
+	}
+	return false
+}
+
+// notFreshSlice: "" if v is certainly an empty slice on loop entry, else what it may hold.
+func notFreshSlice(v ssa.Value, seen map[ssa.Value]bool) string {
+	if seen[v] {
+		return ""
+	}
+	seen[v] = true
+	switch x := v.(type) {
+	case *ssa.Const:
+		if x.Value == nil {
+			return ""
+		}
+	case *ssa.MakeSlice:
+		if k, ok := constInt(x.Len); ok && k == 0 {
+			return ""
+		}
+		return "the elements of a non-empty make"
+	case *ssa.Slice:
+		if x.High != nil {
+			if k, ok := constInt(x.High); ok && k == 0 {
+				return ""
+			}
+		}
+		if a, ok := x.X.(*ssa.Alloc); ok {
+			if at, ok := derefType(a.Type()).Underlying().(*types.Array); ok && at.Len() == 0 {
+				return ""
+			}
+		}
+		return "a slice of existing values"
+	case *ssa.Phi:
+		for _, e := range x.Edges {
+			if why := notFreshSlice(e, seen); why != "" {
+				return why
+			}
+		}
+		return ""
+	case *ssa.Call:
+		if bi, ok := x.Call.Value.(*ssa.Builtin); ok && bi.Name() == "append" {
+			return "previously appended values"
+		}
+		return "the result of " + x.Call.Value.Name()
+	case *ssa.Extract:
+		return "the result of an earlier call"
+	}
+	return "other values"
 }
